@@ -50,6 +50,16 @@ def _lake(args: Sequence[str], timeout: int = 3000) -> subprocess.CompletedProce
             fcntl.flock(lf, fcntl.LOCK_UN)
 
 
+def _locked_run(cmd: Sequence[str], timeout: int = 3000) -> subprocess.CompletedProcess[str]:
+    lock = LEAN / ".lake-verif.lock"
+    with open(lock, "w") as lf:
+        fcntl.flock(lf, fcntl.LOCK_EX)
+        try:
+            return subprocess.run(list(cmd), cwd=LEAN, capture_output=True, text=True, timeout=timeout)
+        finally:
+            fcntl.flock(lf, fcntl.LOCK_UN)
+
+
 def lake_build(targets: Sequence[str]) -> tuple[bool, str]:
     p = _lake(["build", *targets])
     return p.returncode == 0, (p.stdout + p.stderr)
@@ -139,7 +149,13 @@ def audit(proof_modules: Sequence[str]) -> dict[str, Any]:
         + "        | _ => pure ()\n"
     )
     try:
-        p = subprocess.run(["lake", "env", "lean", str(f)], cwd=LEAN, capture_output=True, text=True, timeout=1200)
+        # under the build lock (no concurrent `lake build` of another check may rewrite .olean files while
+        # they are loaded), and once more after a pause when Lean itself failed to load the modules
+        p = _locked_run(["lake", "env", "lean", str(f)], timeout=1200)
+        if p.returncode != 0 or "AUDIT " not in p.stdout:
+            time.sleep(3)
+            lake_build(list(proof_modules))
+            p = _locked_run(["lake", "env", "lean", str(f)], timeout=1200)
     finally:
         try:
             f.unlink()
